@@ -1,3 +1,259 @@
 import TTModel.Proto
-/-! C04 driver — stub (not built yet): answers `bad-op` to everything. -/
-def main : IO Unit := TT.Proto.mainLoop fun _ => "bad-op"
+import TTModel.C04_Subst
+import TTGen.C04Tables
+/-! C04 driver: the substitution-model definitions of `TTModel/C04_Subst.lean` executed at `Rat`
+(mode `r`, values `p/q`) and `Float` (mode `f`, 16-hex-digit bit patterns).
+
+  `q <mode> jc69 | hky κ π×4 | gtr r×6 π×4 | gjc n | gsym n m mapping×m k rates×k π×n
+            | gnonsym n m mapping×m k rates×k π×n | emp n rates×(n(n-1)/2) π×n | lg | wag
+            | mg94 code alpha beta kappa π×n`         → `n <n·n entries of q(), row-major> <norm>`
+  `freq <mode> lg|wag`                                 → the generated frequency table
+  `masks code`                                         → `n <transitions> <synonymous> <non_synonymous>` (0/1 strings)
+  `jcpt t` / `gjcpt n t`                               → closed-form P(t) (Float)
+  `symm n π×n Q×n²`                                    → sqrt_pi @ (Q/norm) @ sqrt_pi_inv (Float)
+  `recon n t π×n e×n V×n² Vinv×n²`                     → reconstruction (Float)
+  `taylor n t π×n Q×n²`                                → independent oracle exp(t·Q/norm): scaling and squaring
+                                                          with a Taylor series on flat FloatArrays (Float)
+-/
+open TT TT.Proto TT.C04
+
+instance : NatCast Float := ⟨Float.ofNat⟩
+
+structure IOS (α : Type) where
+  parse : String → Option α
+  shw : α → String
+
+def ratIO : IOS Rat := ⟨parseRat, showRat⟩
+def floatIO : IOS Float := ⟨parseFloatBits, floatBits⟩
+
+def fnOf {α : Type} [Zero α] (xs : Array α) : Nat → α := fun k => xs.getD k 0
+def finFn {α : Type} [Zero α] (xs : Array α) (n : Nat) : Fin n → α := fun i => xs.getD i.val 0
+def matOf {α : Type} [Zero α] (xs : Array α) (n : Nat) : Mat n α := fun i j => xs.getD (i.val * n + j.val) 0
+
+/-- tabulate once (a value, so it is shared) / read back: `untab (tab f) = f` entrywise -/
+def tab {n : Nat} (f : Mat n Float) : Array (Array Float) := Array.ofFn fun i => Array.ofFn fun j => f i j
+def untab {n : Nat} (a : Array (Array Float)) : Mat n Float := fun i j => (a.getD i.val #[]).getD j.val 0.0
+def showTab (a : Array (Array Float)) : String :=
+  " ".intercalate (a.toList.flatMap fun r => r.toList.map floatBits)
+
+def showMat {α : Type} (io : IOS α) {n : Nat} (M : Mat n α) : List String :=
+  (List.finRange n).flatMap fun i => (List.finRange n).map fun j => io.shw (M i j)
+
+/-- take `k` words and parse them -/
+def takeVals {α : Type} (io : IOS α) (k : Nat) (ws : List String) : Option (Array α × List String) :=
+  if ws.length < k then none else
+  match (ws.take k).mapM io.parse with
+  | some xs => some (xs.toArray, ws.drop k)
+  | none => none
+
+def takeNats (k : Nat) (ws : List String) : Option (Array Nat × List String) :=
+  if ws.length < k then none else
+  match (ws.take k).mapM String.toNat? with
+  | some xs => some (xs.toArray, ws.drop k)
+  | none => none
+
+section generic
+variable {α : Type} [Add α] [Sub α] [Mul α] [Div α] [Neg α] [Zero α] [One α] [NatCast α]
+
+def replyQ (io : IOS α) {n : Nat} (Q : Mat n α) (π : Fin n → α) : String :=
+  " ".intercalate ([toString n] ++ showMat io Q ++ [io.shw (norm Q π)])
+
+def tableVals (fromQ : Int × Nat → α) (fromBits : UInt64 → α) (isRat : Bool)
+    (q : Array (Int × Nat)) (b : Array UInt64) : Array α :=
+  if isRat then q.map fromQ else b.map fromBits
+
+def handleQ (io : IOS α) (fromQ : Int × Nat → α) (fromBits : UInt64 → α) (isRat : Bool)
+    (ws : List String) : Option String :=
+  match ws with
+  | ["jc69"] => some (replyQ io (jc69Q (α := α)) jc69Freq)
+  | "hky" :: rest => do
+    let (v, rest) ← takeVals io 5 rest
+    if rest ≠ [] then none
+    let π : Fin 4 → α := fun i => v.getD (i.val + 1) 0
+    pure (replyQ io (hkyQ (v.getD 0 0) π) π)
+  | "gtr" :: rest => do
+    let (v, rest) ← takeVals io 10 rest
+    if rest ≠ [] then none
+    let r : Fin 6 → α := fun i => v.getD i.val 0
+    let π : Fin 4 → α := fun i => v.getD (i.val + 6) 0
+    pure (replyQ io (gtrQ r π) π)
+  | ["gjc", n] => do
+    let n ← n.toNat?
+    pure (replyQ io (generalJC69Q (α := α) n) (generalJC69Freq n))
+  | kind :: n :: m :: rest =>
+    if kind = "gsym" ∨ kind = "gnonsym" then do
+      let n ← n.toNat?
+      let m ← m.toNat?
+      let (mapping, rest) ← takeNats m rest
+      match rest with
+      | k :: rest => do
+        let k ← k.toNat?
+        let (rates, rest) ← takeVals io k rest
+        let (pi, rest) ← takeVals io n rest
+        if rest ≠ [] then none
+        -- an index outside the rate vector raises IndexError in torch: refuse rather than default
+        if mapping.any (· ≥ k) then none
+        let π := finFn pi n
+        let mp : Nat → Nat := fun i => mapping.getD i 0
+        if kind = "gsym" then
+          if m ≠ n * (n - 1) / 2 then none
+          pure (replyQ io (generalSymQ mp (fnOf rates) π) π)
+        else
+          if m ≠ n * (n - 1) then none
+          pure (replyQ io (generalNonSymQ (m / 2) mp (fnOf rates) π) π)
+      | [] => none
+    else if kind = "emp" then do
+      let n ← n.toNat?
+      let (rates, rest) ← takeVals io (n * (n - 1) / 2) (m :: rest)
+      let (pi, rest) ← takeVals io n rest
+      if rest ≠ [] then none
+      let π := finFn pi n
+      pure (replyQ io (empiricalQ (fnOf rates) π) π)
+    else if kind = "mg94" then do
+      let code ← n.toNat?
+      let table ← TTGen.C04Tables.geneticCodeTables[code]?
+      let masks := mg94Masks table TTGen.C04Tables.codonTriplets
+      let nn := (codingIndices table).length
+      let (abk, rest) ← takeVals io 3 (m :: rest)
+      let (pi, rest) ← takeVals io nn rest
+      if rest ≠ [] then none
+      let π := finFn pi nn
+      let mask : Nat → Bool × Bool × Bool := fun k => masks.getD k (false, false, false)
+      pure (replyQ io (mg94Q mask (abk.getD 0 0) (abk.getD 1 0) (abk.getD 2 0) π) π)
+    else none
+  | [name] =>
+    if name = "lg" then
+      let π := finFn (tableVals fromQ fromBits isRat TTGen.C04Tables.lgFreqQ TTGen.C04Tables.lgFreqBits) TTGen.C04Tables.lgFreqQ.size
+      some (replyQ io (empiricalQ (fnOf (tableVals fromQ fromBits isRat TTGen.C04Tables.lgRatesQ TTGen.C04Tables.lgRatesBits)) π) π)
+    else if name = "wag" then
+      let π := finFn (tableVals fromQ fromBits isRat TTGen.C04Tables.wagFreqQ TTGen.C04Tables.wagFreqBits) TTGen.C04Tables.wagFreqQ.size
+      some (replyQ io (empiricalQ (fnOf (tableVals fromQ fromBits isRat TTGen.C04Tables.wagRatesQ TTGen.C04Tables.wagRatesBits)) π) π)
+    else none
+  | _ => none
+
+def handleFreq (io : IOS α) (fromQ : Int × Nat → α) (fromBits : UInt64 → α) (isRat : Bool)
+    (name : String) : Option String :=
+  if name = "lg" then
+    some (" ".intercalate ((tableVals fromQ fromBits isRat TTGen.C04Tables.lgFreqQ TTGen.C04Tables.lgFreqBits).toList.map io.shw))
+  else if name = "wag" then
+    some (" ".intercalate ((tableVals fromQ fromBits isRat TTGen.C04Tables.wagFreqQ TTGen.C04Tables.wagFreqBits).toList.map io.shw))
+  else none
+
+end generic
+
+/-! independent oracle: exp(A) by scaling and squaring with a Taylor series, flat `FloatArray`s -/
+namespace Expm
+def get (a : FloatArray) (i : Nat) : Float := a.get! i
+def matmul (n : Nat) (a b : FloatArray) : FloatArray := Id.run do
+  let mut c := FloatArray.emptyWithCapacity (n * n)
+  for i in [0:n] do
+    for j in [0:n] do
+      let mut s : Float := 0.0
+      for k in [0:n] do
+        s := s + get a (i * n + k) * get b (k * n + j)
+      c := c.push s
+  return c
+def scale (a : FloatArray) (x : Float) : FloatArray := Id.run do
+  let mut c := FloatArray.emptyWithCapacity a.size
+  for i in [0:a.size] do c := c.push (get a i * x)
+  return c
+def add (a b : FloatArray) : FloatArray := Id.run do
+  let mut c := FloatArray.emptyWithCapacity a.size
+  for i in [0:a.size] do c := c.push (get a i + get b i)
+  return c
+def eye (n : Nat) : FloatArray := Id.run do
+  let mut c := FloatArray.emptyWithCapacity (n * n)
+  for i in [0:n] do
+    for j in [0:n] do c := c.push (if i = j then 1.0 else 0.0)
+  return c
+def infNorm (n : Nat) (a : FloatArray) : Float := Id.run do
+  let mut m : Float := 0.0
+  for i in [0:n] do
+    let mut s : Float := 0.0
+    for j in [0:n] do s := s + (get a (i * n + j)).abs
+    if s > m then m := s
+  return m
+def expm (n : Nat) (a : FloatArray) : FloatArray := Id.run do
+  let nrm := infNorm n a
+  let mut s : Nat := 0
+  let mut x := nrm
+  -- scale until the norm is at most 1/4
+  while x > 0.25 && s < 200 do
+    x := x / 2.0
+    s := s + 1
+  let b := scale a (Float.ofScientific 1 false 0 / (Float.ofNat 2) ^ (Float.ofNat s))
+  let mut term := eye n
+  let mut sum := eye n
+  for k in [1:19] do
+    term := scale (matmul n term b) (1.0 / Float.ofNat k)
+    sum := add sum term
+  let mut p := sum
+  for _ in [0:s] do
+    p := matmul n p p
+  return p
+end Expm
+
+def handleF (ws : List String) : Option String :=
+  match ws with
+  | ["jcpt", t] => do
+    let t ← parseFloatBits t
+    pure (" ".intercalate (showMat floatIO (jc69P t)))
+  | ["gjcpt", n, t] => do
+    let n ← n.toNat?
+    let t ← parseFloatBits t
+    pure (" ".intercalate (showMat floatIO (generalJC69P n t)))
+  | "symm" :: n :: rest => do
+    let n ← n.toNat?
+    let (pi, rest) ← takeVals floatIO n rest
+    let (q, rest) ← takeVals floatIO (n * n) rest
+    if rest ≠ [] then none
+    let π := finFn pi n
+    let Qn := tab (normalised (matOf q n) π)
+    pure (showTab (tab (symmetrised (untab (n := n) Qn) π)))
+  | "recon" :: n :: t :: rest => do
+    let n ← n.toNat?
+    let t ← parseFloatBits t
+    let (pi, rest) ← takeVals floatIO n rest
+    let (e, rest) ← takeVals floatIO n rest
+    let (v, rest) ← takeVals floatIO (n * n) rest
+    let (vi, rest) ← takeVals floatIO (n * n) rest
+    if rest ≠ [] then none
+    -- `recon = mmul (reconA …) (reconB …)` by definition; the two factors are tabulated once
+    let a := tab (reconA (finFn pi n) (matOf v n) (finFn e n) t)
+    let b := tab (reconB (finFn pi n) (matOf vi n))
+    pure (showTab (tab (mmul (untab (n := n) a) (untab b))))
+  | "taylor" :: n :: t :: rest => do
+    let n ← n.toNat?
+    let t ← parseFloatBits t
+    let (pi, rest) ← takeVals floatIO n rest
+    let (q, rest) ← takeVals floatIO (n * n) rest
+    if rest ≠ [] then none
+    let π := finFn pi n
+    let nrm := norm (matOf q n) π
+    let a : FloatArray := Id.run do
+      let mut c := FloatArray.emptyWithCapacity (n * n)
+      for x in q do c := c.push (x / nrm * t)
+      return c
+    let p := Expm.expm n a
+    pure (" ".intercalate ((List.range (n * n)).map fun i => floatBits (p.get! i)))
+  | _ => none
+
+def showMaskBits (xs : List Bool) : String := String.ofList (xs.map fun b => if b then '1' else '0')
+
+def handle (line : String) : String :=
+  let ws := splitWords line
+  let r : Option String :=
+    match ws with
+    | "q" :: "r" :: rest => handleQ ratIO (fun p => mkRat p.1 p.2) (fun _ => 0) true rest
+    | "q" :: "f" :: rest => handleQ floatIO (fun _ => 0.0) Float.ofBits false rest
+    | ["freq", "r", name] => handleFreq ratIO (fun p => mkRat p.1 p.2) (fun _ => 0) true name
+    | ["freq", "f", name] => handleFreq floatIO (fun _ => 0.0) Float.ofBits false name
+    | ["masks", code] => do
+      let code ← code.toNat?
+      let table ← TTGen.C04Tables.geneticCodeTables[code]?
+      let masks := (mg94Masks table TTGen.C04Tables.codonTriplets).toList
+      pure s!"{(codingIndices table).length} {showMaskBits (masks.map (·.1))} {showMaskBits (masks.map (·.2.1))} {showMaskBits (masks.map (·.2.2))}"
+    | _ => handleF ws
+  r.getD "bad-op"
+
+def main : IO Unit := mainLoop handle
